@@ -320,6 +320,17 @@ fn random_strategy() -> impl Strategy<Value = DecCase> {
     })
 }
 
+/// the libFuzzer input format of target `decode`: byte 0 selects the decoder, the rest is the input
+pub fn fuzz_case(data: &[u8]) -> Option<DecCase> {
+    if data.is_empty() {
+        return None;
+    }
+    Some(DecCase {
+        target: TARGETS[data[0] as usize % TARGETS.len()].to_string(),
+        bytes: data[1..].to_vec(),
+    })
+}
+
 pub fn run(ctx: &mut Ctx) {
     ctx.rule = "inputs: (a) every byte string of length <= 2 for every decoder, (b) every truncation and every single-byte mutation \
 (->00, ->FF, ^01, ^80, +1, -1) of valid encodings of every PDU type x CRC on/off x Small/Large x id widths and of their parts (operations, \
@@ -424,4 +435,12 @@ file data, TLVs, filestore requests/responses, ids, user operations, reports), (
     let n = ctx.tier.pick(300_000u64, 4_000_000);
     ctx.drive_proptest(&part, random_strategy(), n, 4000);
     ctx.section.clear();
+    if ctx.tier == Tier::Thorough {
+        // coverage-guided campaign through the same oracle (E4)
+        let c = crate::fuzzrun::Campaign { target: "decode", runs: 1_500_000, max_len: 700 };
+        crate::fuzzrun::campaign_into_ctx(ctx, &c, |bytes| match fuzz_case(bytes) {
+            Some(case) => (DecPart.run(&case).fail, serde_json::to_value(&case).unwrap(), "decode"),
+            None => (None, serde_json::Value::Null, "decode"),
+        });
+    }
 }
